@@ -97,7 +97,7 @@ POOLS = {
     ],
 }
 # buffer settings: index 0 = call without buffer arguments, index 1 = explicit non-default (dyadic time buffer)
-BUFFERS = [None, [0.5, 1000.0]]
+BUFFERS = [None, [0.5, 1000.0], [0, 0]]  # defaults (nothing passed); generous buffers; explicit zeros (passed as the ints 0, 0)
 
 # (pool, maximum list length, number of shards per buffer setting)
 PLAN = {
@@ -146,10 +146,53 @@ def blocks(tier):
                 out.append({"tier": tier, "pool": pool, "max_len": L, "buf": b, "shard": k, "of": shards})
     # costly spaces first so that the tail of the run is made of cheap blocks
     out.sort(key=lambda d: (-d["max_len"] * len(POOLS[d["pool"]]), d["pool"], d["buf"], d["shard"]))
+    out.append({"tier": tier, "space": "large"})
+    return out
+
+
+# ---------------------------------------------------------------- large instances (more than 1000 candidate pairs)
+def run_large(case):
+    """n time stamps against n time stamps 15 ms later, 10 s apart from the next pair, default buffers (10 ms): each source has a
+    positive affinity to its own target only (the gap lies between one and two buffers), so the optimum pairs i with i.  The instance
+    is far beyond the brute-force model; its optimum is known by construction and the affinities come from compute_affinity."""
+    out = Out(case)
+    n = case["n"]
+    S = [mkgeom("TimeStamp", 10.0 * i) for i in range(n)]
+    T = [mkgeom("TimeStamp", 10.0 * i + 0.015) for i in range(n)]
+    diag = [float(compute_affinity(S[i], T[i])) for i in range(n)]
+    off = max(float(compute_affinity(S[i], T[j])) for i in range(n) for j in (i - 1, i + 1) if 0 <= j < n)
+    out.transitions = out.validated = 1
+    out.nontrivial = True
+    if not (min(diag) > 0 and off == 0):
+        out.vac("optimal")  # the construction does not hold (affinity is C06's subject): nothing to judge here
+        out.klass = "large:construction_fails"
+        return out
+    cls = {"fn": FN, "kind": "large", "n": n}
+    try:
+        result = list(match_geometries(S, T))
+    except Exception as e:  # noqa
+        out.fail("covers_once", ["raised", type(e).__name__, str(e)[:200]], "a list of matches", dict(cls, exc=type(e).__name__))
+        out.klass = "large:raised"
+        return out
+    src = sorted(e[0] for e in result if e[0] is not None)
+    tgt = sorted(e[1] for e in result if e[1] is not None)
+    out.expect("covers_once", src == list(range(n)) and tgt == list(range(n)), {"sources": len(src), "targets": len(tgt)}, n, cls)
+    pairs = {(e[0], e[1]): e[2] for e in result if e[0] is not None and e[1] is not None}
+    total = sum(diag[i] for (i, j) in pairs if i == j)
+    missing = [i for i in range(n) if (i, i) not in pairs]
+    out.expect("optimal", not missing, {"unpaired_diagonal": missing[:5], "n_missing": len(missing), "total": total},
+               {"total": sum(diag)}, dict(cls, kind="large_sum_below_optimum"))
+    bad = [[i, j, a] for (i, j), a in pairs.items() if i != j or abs(a - diag[i]) > 1e-9]
+    out.expect("affinity_value", not bad, bad[:3], "reported affinity = compute_affinity of the pair", cls)
+    out.klass = "large:%s" % ("ok" if not out.viol else "viol")
     return out
 
 
 def run_block(block, rec):
+    if block.get("space") == "large":
+        for n in (31, 32, 33, 40):
+            rec.add(run_large({"space": "large", "n": n}))
+        return
     pool, L, b, k, of = block["pool"], block["max_len"], block["buf"], block["shard"], block["of"]
     p = len(POOLS[pool])
     total = 0
@@ -223,6 +266,8 @@ def _plain(result):
 
 
 def run_case(case):
+    if case.get("space") == "large":
+        return run_large(case)
     out = Out(case)
     pool, b = case["pool"], case["buf"]
     src, tgt = list(case["src"]), list(case["tgt"])
